@@ -92,3 +92,19 @@ def enumerated(rep, which, clauses):
         if f["clause"] in clauses:
             rep.fail(f["clause"], "vec." + which, f["case"], f["observed"], f["expected"])
     return {k: out.get(k, []) for k in ("truth", "rule", "writeback")}
+
+
+def forms(rep, clauses):
+    """argument-form independence (drv_forms.py): every other way of handing over the same operand / key / value /
+    column gives what the spec-checked canonical form gives, or is rejected"""
+    import json
+    import os
+    sc = engine.scratch()
+    op = os.path.join(sc, "forms_out.json")
+    engine.run_driver("drv_forms.py", [op], timeout=900)
+    out = json.load(open(op))
+    rep.gen_cases += out["executed"]
+    for f in out["failures"]:
+        if f["clause"] in clauses:
+            rep.fail(f["clause"], "forms", f["case"], f["observed"], f["expected"])
+    return {k: out.get(k, []) for k in ("truth", "rule", "writeback")}
